@@ -206,6 +206,9 @@ func mergeInterfaces(previousDefinition *ast.Definition, newDefinition *ast.Defi
 	for ix, field := range prevCopy.Fields {
 		// get the corresponding field in the other definition
 		otherField := newDefinition.Fields.ForName(field.Name)
+		if otherField == nil {
+			return nil, fmt.Errorf("could not find field %s of interface %s", field.Name, previousDefinition.Name)
+		}
 
 		var err error
 		prevCopy.Fields[ix], err = mergeFields(field, otherField)
@@ -342,6 +345,9 @@ func mergeEnums(previousDefinition *ast.Definition, newDefinition *ast.Definitio
 	for ix, value := range prevCopy.EnumValues {
 		// look up the valuein the new definition
 		newValue := newDefinition.EnumValues.ForName(value.Name)
+		if newValue == nil {
+			return nil, fmt.Errorf("enum %s has an inconsistent definition in different services", newDefinition.Name)
+		}
 
 		var err error
 		prevCopy.EnumValues[ix], err = mergeEnumValues(value, newValue)
